@@ -41,6 +41,8 @@ def setup_concrete():
     l2.setup_concrete()
 
 
+S = lambda n, k="real", **kw: dict(s=n, k=k, **kw)  # noqa: E731
+
 PROGRAMS = {
     "timing": [["declare", "g", "ryd_glob"], ["declare", "l", "ryd_loc", "q0"], ["declare", "b", "ram_loc", "q1"],
                ["add", "g", ["cp", 100, 1.0, 0.5, 0.0]], ["add", "g", ["cp", 52, 2.0, 0.0, 1.0]],
@@ -65,6 +67,9 @@ PROGRAMS = {
     # an SLM mask in Ising mode: the sequence itself computes the DMM pulse from the device's DMM limits
     "slm": [["declare", "g", "ryd_glob"], ["config_slm", ["q0", "q1"]], ["add", "g", ["cp", 52, 8.0, 0.0, 0.0]],
             ["add", "g", ["cp", 40, 1.0, 0.0, 1.0]]],
+    # EOM mode with a set-point close to the detuning limit: the off-detuning is chosen from the device's EOM configuration
+    "eom_near_limit": [["declare", "g", "ryd_glob"], ["enable_eom", "g", 10.0, S("det_on", lo=-251, hi=-200)], ["add_eom", "g", 40, 0.0], ["delay", "g", 20],
+                       ["add_eom", "g", 40, 1.0]],
     # XY mode with an SLM mask (no DMM involved)
     "xy_slm": [["declare", "mw", "mw_global"], ["config_slm", ["q0"]], ["add", "mw", ["cp", 52, 1.0, 0.0, 0.0]],
                ["add", "mw", ["cp", 40, 1.0, 0.0, 1.0]]],
@@ -267,6 +272,12 @@ def kernels(tier):
     for conc in ([["dmm_0", "bottom_detuning", -5.0]], [["ryd_glob", "max_amp", 60.0]]):
         ks.append(("switch", dict(program="slm", sym=[], concrete=conc, strict=True)))
     ks.append(("switch", dict(program="slm", sym=[["ryd_glob", "max_amp"]], strict=False)))
+    # device A without modulation, device B with: strict has to notice (None is a value like any other)
+    for prog in ("timing", "retarget"):
+        c0 = chan_of[prog][0]
+        ks.append(("switch", dict(program=prog, device="virt_nomod", sym=[], concrete=[[c0, "mod_bandwidth", 10.0]], strict=True)))
+    for conc in ([["ryd_glob", "eom.intermediate_detuning", 1000 * TWO_PI]], [["ryd_glob", "eom.intermediate_detuning", 300 * TWO_PI]]):
+        ks.append(("switch", dict(program="eom_near_limit", sym=[], concrete=conc, strict=False)))
     for strict in (True, False):
         ks.append(("switch", dict(program="xy_slm", device="mock", sym=[["mw_global", "max_amp"]], strict=strict)))
     # DMM channels are compared like every other channel under strict
